@@ -569,9 +569,18 @@ func r19b(c *core.Ctx) {
 	}
 	c.Check(len(blocking) == 0, "hit-path-non-blocking", fn.Pos(), fn, "starting a refresh performs no channel wait, upstream exchange or cache store on the request goroutine (the hit is answered immediately)", strings.Join(blocking, "; "))
 	// in handleReq: the prefetch call lies on the hit edge, under needPrefetch, and is followed by the hit's return
-	for _, call := range callsOfFn(hr, fn) {
+	var pcalls []ssa.CallInstruction
+	top19 := hr
+	for _, hf := range helperReach(hr, 1) {
+		if hf.Parent() == nil && hf != fn {
+			pcalls = append(pcalls, callsOfFn(hf, fn)...)
+		}
+	}
+	for _, call := range pcalls {
+		hr := call.Parent()
 		c.Check(hasCond(call.Block(), "router.needPrefetch(", true), "prefetch-only-in-window", call.Pos(), hr, "a refresh is considered only when needPrefetch(storedTime, expireTime) holds", condList(call.Block()))
-		c.Check(strings.Contains(core.Expr(call.Common().Args[3]), "matchedRule.upstream") || strings.Contains(core.Expr(call.Common().Args[3]), ".upstream"), "prefetch-uses-selected-upstream", call.Pos(), hr, "the refresh goes to the matched rule's upstream", core.Expr(call.Common().Args[3]))
+		ua := bindToCaller(call.Common().Args[3], top19)
+		c.Check(strings.Contains(core.Expr(ua), "matchedRule.upstream") || strings.Contains(core.Expr(ua), ".upstream"), "prefetch-uses-selected-upstream", call.Pos(), hr, "the refresh goes to the matched rule's upstream", core.Expr(ua))
 	}
 	// refresh context: WithTimeout(r.ctx, prefetchTimeout)
 	for _, call := range core.CallsNamed(dp, "context.WithTimeout") {
